@@ -37,6 +37,24 @@ CHECKS = {
         "text": "Every servable path of two menu worlds (files, directory indexes, .html fallbacks, via links, built-in assets) x {prod, legacy} x Range x Origin x preflight headers is run as GET, HEAD, OPTIONS; HEAD must equal GET in status and headers (timestamp excluded) with the GET body's Content-Length and no body; OPTIONS must be a bodiless success with the configured preflight grants.",
         "note": "Default configuration (allow-all CORS) in the harness process.",
     },
+    "C04": {
+        "level": "exploration",
+        "technique": "TLA+ connection state machine (Conn.tla) model-checked by TLC; TLC-generated structure-aware mutations of requests (Mutation.tla, Gen_Conn) x handlers x transport scripts replayed on Server::process in child processes; every transport call validated by TLC as a Conn step (Trace_Conn)",
+        "text": "Every single mutation (thorough: pairs) of 20 seed requests, three application handlers and 60 transport scripts; a panic, abort (stack overflow) or missing/incomplete answer has no action in Conn and is rejected; unparseable request lines and handler errors must yield an error status. The space is unbounded, so this is exploration of a structured space, not exhaustive.",
+        "note": "Child processes, named thread, 2 MiB stack, dev profile opt-level 0 with overflow checks (what `cargo build` ships). Release-profile stack depth is not sampled.",
+    },
+    "C05": {
+        "level": "model_checking",
+        "technique": "TLA+ Conn.tla checked by TLC against an adversarial transport (single-write variant refuted); write_all protocol and HttpMsg!WellFormed (status table, header grammar, framing) validated by TLC on traces of Server::process over scripted short-write transports",
+        "text": "All short-write / zero-accept / fault interleavings are model-checked on the design; on the code, 8 seeds x 60 transport scripts (every chunk size class, a short first write at 45 offsets) and all single mutations with hostile header values: each write must offer exactly the unaccepted rest, Ok only after full delivery, and the delivered bytes must be one well-formed response (registered status/phrase, header lines without CR/LF, framing headers once, Content-Length = body, no body for HEAD/OPTIONS, no injected header).",
+        "note": "Status phrases follow RFC 9110 (the server never emits the two codes whose phrases differ in the library table).",
+    },
+    "C10": {
+        "level": "model_checking",
+        "technique": "HttpMsg!HardeningViolations (TLA+) evaluated by TLC on the End event of every connection of the Gen_Conn space (Trace_Conn)",
+        "text": "Every response produced for the C04 input space (200, 204, 206, 400, 404, 416, 500, built-in pages, form endpoints, handler errors) must carry each of the six hardening / no-cache headers exactly once.",
+        "note": "Header names compared case-insensitively; Cache-Control must contain no-store, Vary must name Origin, Accept-CH must be non-empty.",
+    },
     "C07": {
         "level": "model_checking",
         "technique": "TLA+ spec of the pool (Pool.tla) model-checked by TLC (safety + liveness, spec mutants refuted); TLC-simulated schedules replayed step by step on the real ThreadPool through cfg(rws_verif) gates; free-running hook traces validated by TLC (Trace_Pool)",
